@@ -13,7 +13,7 @@ META = dict(
     explanation="For every API that accepts random_state - LGANM(...) with (low, high) ranges, LGANM.sample (also on a model that was itself constructed with a seed), NormalDistribution.sample, "
                 "ANM.sample (library noise: normal / uniform / laplace, with do-, shift- and noise-interventions), dag_avg_deg, dag_full, "
                 "intervention_targets, split_data, add_edges, remove_edges - the same call is executed TWICE inside one path with a "
-                "symbolic seed s >= 0 (0 is a value the solver may pick) and symbolic arguments: the first from an arbitrary state G0 of "
+                "symbolic seed s >= 0 (0 is a value the solver may pick; passed as a Python int and, for every API, also as a numpy integer scalar) and symbolic arguments: the first from an arbitrary state G0 of "
                 "numpy's global generator, the second after the global generator has been put into another arbitrary, unrelated state "
                 "(an uninterpreted constant: this is 'any interleaving of other sampling / reseeding'), with a battery of OTHER library calls in between (utilities on other graphs of the same size, another model, draws from and reseeding of the global generator) so that state carried from call to call inside the library is seen. numpy's generators are contract "
                 "stubs built from uninterpreted functions of (state, draw number, index), so 'bit-identical' is term equality decided by "
@@ -21,7 +21,7 @@ META = dict(
                 "Non-degeneracy: for two consecutive UNSEEDED calls the query 'some element differs' must be satisfiable.",
     bounds=dict(quick="p <= 3 (all DAG patterns, symbolic weights) for LGANM; NormalDistribution p = 2; ANM p <= 2 all intervention kinds per variable and p = 3 with at most 1 intervened variable; n in {1,2}; generators p = 3; intervention_targets p = 3, K <= 2; split_data n = 3, 2 folds; add/remove_edges p = 3",
                 thorough="ANM p = 3 all intervention assignments, n = 2; generators p = 4"),
-    outside=["numpy's own determinism for a given seed (trusted)", "seeds that are not Python ints (numpy integer scalars, SeedSequence)", "hash-order effects", "user-supplied noise callables"],
+    outside=["numpy's own determinism for a given seed (trusted)", "SeedSequence / Generator objects as random_state", "hash-order effects", "user-supplied noise callables"],
     stubs=["numpy -> symnp", "numpy.random (global stream, default_rng) -> contract stubs over uninterpreted functions of (state, draw, index)",
            "numpy.linalg.inv -> exact contract stub"],
     assumptions=["z3 sound", "np.random.seed(s) / default_rng(s) make the stream a function of s alone"],
@@ -94,6 +94,10 @@ def _pair(ctx, api, call, inputs, info, size=3):
     e.assume(seed < 2 ** 32)
     cl = []
     outcome = 'returned'
+    if ctx.params.get('seedtype') == 'npint':
+        seed_sym, seed = seed, np.npinteger(seed)     # the caller passes a numpy integer scalar as random_state
+    else:
+        seed_sym = seed
     if mode in ('both', 'seeded'):
         a = _run(call, seed)
         _battery(ctx, size)                           # other library calls in between (state carried between calls?)
@@ -114,7 +118,7 @@ def _pair(ctx, api, call, inputs, info, size=3):
         d = _run(call, None)
         if c[0] == d[0] == 'ok' and c[1] == d[1] and c[2]:
             reach.append(('consecutive unseeded calls can differ', G.Z(G.Or([_ne(x, y) for x, y in zip(c[2], d[2])]))))
-    inputs = dict(inputs, api=api, seed=seed)
+    inputs = dict(inputs, api=api, seed=seed_sym, seedtype=ctx.params.get('seedtype', 'int'))
     return PathResult(outcome, cl, inputs=inputs, call=api, info=info, reach=reach)
 
 
@@ -411,6 +415,8 @@ def replay(rec):
     inp = rec['inputs']
     call = _real_call(inp)
     sd = int(unj(inp['seed'])) % (2 ** 32)
+    if inp.get('seedtype') == 'npint':
+        sd = numpy.int64(sd)
     numpy.random.seed(987)
     a = _rrun(call, sd)
     # perturbing history: other sampling and reseeding of the global generator, other library calls
@@ -470,6 +476,16 @@ def obligations(tier):
             "LGANM.sample(n, do_interventions, random_state=s), %d variables" % p, p * 4)
     add('lganm_seeded_model@p2', h_lganm_seeded_model, [dict(c, n=1, how=h) for c in I.dag_pair_cubes(2, 0) for h in ('ranges', 'arrays')],
         "LGANM(..., random_state=c) followed by seeded and by unseeded sample() calls", 5)
+    NPI = dict(seedtype='npint', mode='seeded')
+    add('npint_seed@normal_sample', h_normal_sample, [dict(p=2, n=1, **NPI)], "NormalDistribution.sample with a numpy integer scalar as random_state", 2, reach=())
+    add('npint_seed@lganm_sample', h_lganm_sample, [dict(c, n=1, **NPI) for c in I.dag_pair_cubes(2, 0)], "LGANM.sample with a numpy integer seed", 4, reach=())
+    add('npint_seed@lganm_init', h_lganm_init, [dict(c, **NPI) for c in I.dag_pair_cubes(2, 0)], "LGANM(...) with a numpy integer seed", 2, reach=())
+    add('npint_seed@anm_sample', h_anm_sample, [dict(c, n=1, max_targets=0, **NPI) for c in I.dag_pair_cubes(2, 0)], "ANM.sample with a numpy integer seed", 4, reach=())
+    add('npint_seed@dag_full', h_gen('full'), [dict(p=3, **NPI)], "dag_full with a numpy integer seed", 3, reach=())
+    add('npint_seed@dag_avg', h_gen('avg'), [dict(p=3, **NPI)], "dag_avg_deg with a numpy integer seed", 3, reach=())
+    add('npint_seed@intervention_targets', h_targets, [dict(p=3, replace=True, **NPI)], "intervention_targets with a numpy integer seed", 3, reach=())
+    add('npint_seed@split_data', h_split, [dict(n=3, **NPI)], "split_data with a numpy integer seed", 2, reach=())
+    add('npint_seed@add_edges', h_edges('add'), [dict(c, **NPI) for c in I.dag_pair_cubes(2, 0)], "add_edges with a numpy integer seed", 2, reach=())
     add('normal_sample@p2', h_normal_sample, [dict(p=2, n=n) for n in (1, 2)], "NormalDistribution.sample(n, random_state=s)")
     for p in (1, 2):
         add('anm_sample@p%d' % p, h_anm_sample, [dict(c, n=n) for c in I.dag_pair_cubes(p, 0) for n in (1, 2)],
